@@ -98,7 +98,7 @@ MUTANTS = [
     # _readline as accumulate-and-partition (what _readsegment does): right, searching the newest piece only, dropping the rest
     m("C03-silent-readline-partition", "C03", "", B, _readline_loop(), _RL % ("buf", "rest", "buf += chunk"), kind="silent"),
     m("C01-silent-readline-partition", "C01", "", B, _readline_loop(), _RL % ("buf", "rest", "buf += chunk"), kind="silent"),
-    m("C03-readline-partition-newest-piece", "C03", "C03.R4", B, _readline_loop(), "    chunks = []\n" + _RL % ("buf", "rest", "chunks.append(buf)\n        buf = chunk")),
+    m("C03-readline-partition-newest-piece", "C03", "C03.R6", B, _readline_loop(), "    chunks = []\n" + _RL % ("buf", "rest", "chunks.append(buf)\n        buf = chunk")),
     m("C03-readline-partition-drops-rest", "C03", "C03.R1", B, _readline_loop(), _RL % ("buf", "b\"\"", "buf += chunk")),
     # reply tables built or completed by statements (Module.const interprets the module's top-level statements)
     m("C05-table-entry-overwritten-by-statement", "C05", "C05.R1", B, "    b\"EXISTS\": False,\n}\n", "    b\"EXISTS\": False,\n}\nSTORE_RESULTS_VALUE[b\"EXISTS\"] = None\n"),
